@@ -1,7 +1,7 @@
 (* C04 — schema evolution: unknown fields are skipped exactly, absent optionals take defaults. Statements only. *)
 From Coq Require Import List NArith ZArith.
 From TarsV Require Import Base.Hex Codec.Wire Codec.Skip Codec.SkipProofs Codec.Prim Codec.GenCodec Codec.Corr Codec.GenProofs
-  Codec.RoundTrip Codec.RoundTripProofs Codec.NestedProofs Codec.RoundTripExamples Codec.CorrT Gen.Schemas.
+  Codec.RoundTrip Codec.RoundTripProofs Codec.NestedProofs Codec.WireSpec Codec.EvolveProofs Codec.RoundTripExamples Codec.CorrT Gen.Schemas.
 From TarsV Require Xlate.ReaderEquiv.
 Import ListNotations.
 Open Scope N_scope.
@@ -126,6 +126,41 @@ Theorem C04_extras_nested_into : forall e k sid vs prior Js body tail,
   decode_into e sid prior (body ++ tail) = DOk (norm_struct e sid (VStruct vs)) tail.
 Proof. exact NestedProofs.decode_into_nested. Qed.
 
+(* THE LAST CLAUSE, "so old readers and new writers, and vice versa, interoperate", between two versions of a struct type
+   kept in one schema environment (Codec/EvolveProofs.v).
+   Old writer -> new reader. evolves e fn fo vo vn: the new member list fn is the old one fo with OPTIONAL members added
+   anywhere (of scalar, string, vector, byte-vector or map type, whose default is a value the writer leaves out), and vn
+   is vo with every added member at its default (dflt: the declared default, else the zero value). The bytes the old
+   writer produces for vo decode, with the new schema, everything consumed, to vn (normal form). *)
+Theorem C04_old_writer_new_reader : forall e k n so sn vo vn,
+  wf_schema k e -> (S k <= 64)%nat -> tfin n e (TStruct sn) = true -> (tneed n e (TStruct sn) + k <= 64)%nat ->
+  evolves e (fields_of e sn) (fields_of e so) vo vn -> has_type e (TStruct so) (VStruct vo) ->
+  decode e sn (encode e so (VStruct vo)) = DOk (norm_struct e sn (VStruct vn)) [].
+Proof. exact EvolveProofs.old_writer_new_reader. Qed.
+(* New writer -> old reader. projects e fn fo vn vo Js Jl: fn is fo with members added (of ANY type, optional or
+   required), vo is vn without them, Js / Jl are the added members that are on the wire, as wire fields. The bytes the
+   new writer produces for vn (shorter than 2^30) decode, with the old schema, to vo (normal form), and the cursor stops
+   exactly in front of the added members that follow the old schema's last member. *)
+Theorem C04_new_writer_old_reader : forall e k n so sn vn vo Js Jl,
+  wf_schema k e -> (S k <= 64)%nat ->
+  tfin n e (TStruct so) = true -> (tneed n e (TStruct so) + k <= 64)%nat ->
+  tfin n e (TStruct sn) = true -> (tneed n e (TStruct sn) <= 512)%nat ->
+  projects e (fields_of e sn) (fields_of e so) vn vo Js Jl -> has_type e (TStruct sn) (VStruct vn) ->
+  N.of_nat (length (encode e sn (VStruct vn))) < 1073741824 ->
+  decode e so (encode e sn (VStruct vn)) = DOk (norm_struct e so (VStruct vo)) (ser_fields Jl).
+Proof. exact EvolveProofs.new_writer_old_reader. Qed.
+(* the hypotheses are satisfiable: three versions of a struct type (an optional string with a default added in the
+   middle and an optional map at the end; a required nested struct and a required byte vector added) *)
+Theorem C04_evolution_examples :
+  decode ev_schema 1 (encode ev_schema 0 (VStruct ev_v1))
+    = DOk (VStruct [VInt 7; VStr [110; 111]; VList [VStr [97]; VStr []]; VMap []]) [] /\
+  decode ev_schema 0 (encode ev_schema 2 (VStruct ev_v3))
+    = DOk (VStruct [VInt 7; VList [VStr [98]]]) (ser_fields [(200, WSimple [1; 2])]).
+Proof. exact (conj EvolveProofs.ev_old_to_new EvolveProofs.ev_new_to_old). Qed.
+(* not covered: an added optional member of fixed-array or struct type in the old-writer direction (the new reader then
+   holds the reset value of that member, which no writer leaves out) - decided by the correspondence (members removed /
+   unknown fields inserted at every level on every run) *)
+
 Print Assumptions C04_skip_exact.
 Print Assumptions C04_extras_ignored.
 Print Assumptions C04_extras_ignored_into.
@@ -141,3 +176,6 @@ Print Assumptions C04_reuse.
 Print Assumptions C04_reuse_fresh.
 Print Assumptions C04_reuse_member.
 Print Assumptions C04_reuse_witness.
+Print Assumptions C04_old_writer_new_reader.
+Print Assumptions C04_new_writer_old_reader.
+Print Assumptions C04_evolution_examples.
